@@ -13,10 +13,12 @@ SPEC = dict(
     engines=[dict(name="nlpsubset", shards=T(16, 16), timeout=T(900, 3600)),
              dict(name="nlpanalysis", shards=T(16, 16), timeout=T(900, 3600))],
     rule="case = (database, query, term cap, platform switch) evaluated with NLP off and on; non-trivial = the NLP-off answer is non-empty, distinct by "
-         "(db, query, cap, platforms). Analysis cases: distinct query texts whose expansion added terms beyond the keywords.",
-    floors=T({"queries-of-joined-words": 700, "enhanced-searches-with-typo-tolerance": 3000, "databases-with-a-word-in-every-entry": 4, "long-queries-starting-with-a-ubiquitous-word": 100, "analysis-of-long-texts": 500, "analysis-compared-with-a-fresh-process": 5000, "chatty-queries-over-512-bytes": 150, "dictionary-queries": 300, "subset-checked": 2000, "first4-checked": 3000, "len7-8": 300, "len9-10": 300, "len>10": 300, "nlp-added-candidates": 500,
+         "(db, query, cap, platforms). Analysis cases: distinct query texts whose expansion added terms beyond the keywords. "
+         "nlpanalysis also sweeps every ordered pair of the words the query-analysis package names (taken from its source) and, for each term the enhancement adds to such a pair, the same "
+         "request with that term typed by the user before and after it: the rules that add a term meet a text that already holds it.",
+    floors=T({"closure-pairs": 60000, "closure-texts-with-an-added-term-typed-by-the-user": 200000, "queries-of-joined-words": 700, "enhanced-searches-with-typo-tolerance": 3000, "databases-with-a-word-in-every-entry": 4, "long-queries-starting-with-a-ubiquitous-word": 100, "analysis-of-long-texts": 500, "analysis-compared-with-a-fresh-process": 5000, "chatty-queries-over-512-bytes": 150, "dictionary-queries": 300, "subset-checked": 2000, "first4-checked": 3000, "len7-8": 300, "len9-10": 300, "len>10": 300, "nlp-added-candidates": 500,
               "analysis-with-expansion": 5000, "analysis-revisited": 3000, "distinct_nontrivial": 5000},
-             {"queries-of-joined-words": 30000, "enhanced-searches-with-typo-tolerance": 150000, "databases-with-a-word-in-every-entry": 400, "long-queries-starting-with-a-ubiquitous-word": 10000, "analysis-of-long-texts": 30000, "analysis-compared-with-a-fresh-process": 50000, "chatty-queries-over-512-bytes": 5000, "dictionary-queries": 10000, "subset-checked": 30000, "first4-checked": 30000, "len7-8": 3000, "len9-10": 3000, "len>10": 3000, "nlp-added-candidates": 5000,
+             {"closure-pairs": 60000, "closure-texts-with-an-added-term-typed-by-the-user": 200000, "queries-of-joined-words": 30000, "enhanced-searches-with-typo-tolerance": 150000, "databases-with-a-word-in-every-entry": 400, "long-queries-starting-with-a-ubiquitous-word": 10000, "analysis-of-long-texts": 30000, "analysis-compared-with-a-fresh-process": 50000, "chatty-queries-over-512-bytes": 5000, "dictionary-queries": 10000, "subset-checked": 30000, "first4-checked": 30000, "len7-8": 3000, "len9-10": 3000, "len>10": 3000, "nlp-added-candidates": 5000,
               "analysis-with-expansion": 50000, "analysis-revisited": 30000, "distinct_nontrivial": 50000}),
     assumptions=["'content words' = tokens of the reference tokenizer, counted with repeats",
                  "elements of Keywords that are the first synonym (GetSynonyms) of a word of the text are injected terms and exempt from the order check"],
